@@ -9,6 +9,17 @@
 
 pub mod sym;
 pub mod spec;
+pub mod vm;
+pub mod shape;
+pub mod w;
 pub mod c05;
+
+#[cfg(not(kani))]
+pub mod gen;
+#[cfg(not(kani))]
+pub mod gen_harness;
+
+#[cfg(has_generated)]
+pub mod generated;
 
 pub mod registry;
